@@ -4,7 +4,7 @@ from ref import pools, zkp, rangeproof as rp
 
 ID = "C10"
 LEVEL = "exploration"
-CONFIGS = {"quick": ["san", "mx_i64"], "thorough": ["san", "san_nv", "mx_i64"]}
+CONFIGS = {"quick": ["san", "san_nv", "mx_i64"], "thorough": ["san", "san_nv", "mx_i64"]}
 RULE = ("proofs built by an adversarial reference prover for arbitrary headers (exp 0..31, mantissa 1..65, min_value, reserved bit, wrapping ranges, "
         "spare sign bits, no-range proofs) with every forged ring scalar chosen small, and library-made proofs; mutations: each forged scalar re-encoded "
         "as s+n, scalars := 0 / n, digit x := off-curve / >= p / sign flipped, e0 altered, single-bit flips (all bits of the smallest proofs, sampled "
@@ -100,7 +100,7 @@ def mutations(ctx, config, rng, C, Co, H, Ho, pr, extra, tag, full_flips=False):
 def wl_refprover(ctx, config):
     rng = ctx.rng
     did_full = False
-    for it in range(ctx.n(110, 1000)):
+    for it in ctx.iters(110, 1000):
         H, Ho = gen_pair(ctx, config, rng)
         kind = it % 11
         exp = rng.choice((0, 0, 1, 2, 5, 18)); mant = rng.choice((1, 2, 3, 4, 5, 6, 7, 8)) if ctx.quick or rng.random() < 0.95 else rng.choice((16, 31, 32, 63, 64))
@@ -147,7 +147,7 @@ def wl_degenerate_members(ctx, config):
     """ring signatures that close although a FORGED scalar is exactly 0, or although a ring member (not the signer's) is the point at
     infinity - both must be rejected at every flat index of every ring (the checks are per member, not per ring)"""
     rng = ctx.rng
-    for it in range(ctx.n(48, 900)):
+    for it in ctx.iters(48, 900):
         mant = rng.choice((2, 3, 4, 4, 5, 6)); exp = 0; v = rng.randrange(1 << mant); blind = rng.randrange(1, n); extra = pools.rbytes(rng, rng.choice((0, 5)))
         rsz = rp.layout(mant); ring = rng.randrange(len(rsz))
         if it % 2 == 0:
@@ -186,7 +186,7 @@ def wl_partial_sum_infinity(ctx, config):
     """transmitted digit commitments chosen so that their running sum passes through the point at infinity (C1 = -C0: both digits 0,
     opposite blinding factors): a perfectly valid proof that a verifier must accept"""
     rng = ctx.rng
-    for it in range(ctx.n(16, 300)):
+    for it in ctx.iters(16, 300):
         mant = rng.choice((5, 6, 7, 8)); v = (rng.randrange(1 << (mant - 4)) << 4); b0 = rng.randrange(1, n)
         H, Ho = gen_pair(ctx, config, rng); extra = pools.rbytes(rng, rng.choice((0, 4)))
         pr = rp.make_proof(v, rng.randrange(1, n), H, 0, mant, 0, extra, rng, small=False, bl_override={0: (lambda dg, w, b0=b0: b0), 1: (lambda dg, w, b0=b0: n - b0)})
@@ -199,7 +199,7 @@ def wl_partial_sum_infinity(ctx, config):
 def wl_smallx(ctx, config):
     """digit commitment with x0 < 2^32+977 under a generator chosen by the prover: canonical encoding must verify, x0 + p must not"""
     rng = ctx.rng
-    for it in range(ctx.n(24, 400)):
+    for it in ctx.iters(24, 400):
         extra = pools.rbytes(rng, rng.choice((0, 0, 7, 32)))
         for noncanon in (False, True):
             d = rp.make_proof_smallx(rng, extra, noncanon)
@@ -212,7 +212,7 @@ def wl_smallx(ctx, config):
 
 def wl_libproofs(ctx, config):
     rng = ctx.rng
-    for it in range(ctx.n(70, 700)):
+    for it in ctx.iters(70, 700):
         H, Ho = gen_pair(ctx, config, rng)
         exp = rng.choice((-1, 0, 0, 1, 3, 18)); min_bits = rng.choice((0, 0, 1, 2, 3, 5, 8)) if ctx.quick or rng.random() < 0.95 else rng.choice((32, 64))
         value = rng.choice((0, 1, 2, 100, 12345, 2**20 + 1)) if min_bits < 32 else rng.randrange(2**40)
@@ -239,7 +239,7 @@ def wl_libproofs(ctx, config):
 
 def wl_garbage(ctx, config):
     rng = ctx.rng
-    for it in range(ctx.n(300, 6000)):
+    for it in ctx.iters(300, 6000):
         H, Ho = gen_pair(ctx, config, rng); C = mulG(rng.randrange(1, n)); Co = commit_obj(ctx, config, C)
         L = rng.choice((0, 1, 64, 65, 66, 97, 98, 99, 130, 162, 200, 700, 5134, 5135)) if rng.random() < 0.7 else rng.randrange(0, 800)
         pf = bytearray(pools.rbytes(rng, L))
@@ -247,12 +247,13 @@ def wl_garbage(ctx, config):
         vcase(ctx, config, C, Co, H, Ho, bytes(pf), b'', "garbage", nontrivial=False, also_info=True)
 
 def run(ctx):
-    for i, config in enumerate(ctx.configs):
+    for i, config in enumerate(ctx.cfgs()):
         wl_smallx(ctx, config)
         wl_explicit_zero_min(ctx, config)
         wl_partial_sum_infinity(ctx, config)
         wl_degenerate_members(ctx, config)
-        if ctx.quick and i > 0: continue          # quick: the 32-bit-limb build only gets the coordinate-range workload
-        wl_refprover(ctx, config)
+        if ctx.quick and config == "mx_i64": continue          # quick: the 32-bit-limb build only gets the coordinate-range workloads
+        wl_refprover(ctx, config)                              # quick: the production build gets a third of the adversarial-prover workload
+        if ctx.quick and i > 0: continue
         wl_libproofs(ctx, config)
         wl_garbage(ctx, config)
